@@ -274,3 +274,55 @@ func c05d05bJointLength(j *c05Judge, recv c05Recv, uRecv cty.Value, calls []c05C
 		fmt.Sprintf("the accepted length constraints hold jointly of no length %d..%d the known collection can have", lo, hi),
 		recv, calls[:nOK], "no panic")
 }
+
+// c05d05bOnePrecision: the part of the bridge that is SEARCHED, not proved — at ONE precision math/big's shortest decimal
+// text tells any two different non-integers apart (so there `Value.Equals` is exact comparison).  Probed on the real
+// library over adjacent numbers (one unit in the last place apart: the hardest pairs) at precisions 4..512, and the
+// model's `rawEqual` is diffed on the same pairs (`num.raweq`).
+func c05d05bOnePrecision(ctx *Ctx, scope *[]string) {
+	r := ctx.R
+	precs := []uint{4, 8, 11, 24, 53, 64, 100, 512}
+	n := ctx.N(1200, 40000)
+	done := 0
+	for i := 0; i < n; i++ {
+		prec := precs[r.Intn(len(precs))]
+		// a mantissa of exactly prec bits, odd (so x is a non-integer whenever exp < 0)
+		mant := new(big.Int).SetBit(new(big.Int), int(prec)-1, 1)
+		for b := 0; b < int(prec)-1; b++ {
+			if r.Intn(2) == 0 {
+				mant.SetBit(mant, b, 1)
+			}
+		}
+		mant.SetBit(mant, 0, 1)
+		if r.Intn(6) == 0 { // near a power of two: the interval below is half as wide
+			mant.SetBit(new(big.Int), int(prec)-1, 1)
+			mant.SetBit(mant, 0, 1)
+		}
+		exp := -(1 + r.Intn(int(prec)+40))
+		step := int64(1 + r.Intn(2)) // one or two units in the last place
+		m2 := new(big.Int).Add(mant, big.NewInt(step))
+		if m2.BitLen() > int(prec) {
+			m2.Sub(mant, big.NewInt(step))
+		}
+		mk := func(m *big.Int) *big.Float {
+			f := new(big.Float).SetPrec(prec).SetInt(m)
+			return f.SetMantExp(f, exp)
+		}
+		x, y := mk(mant), mk(m2)
+		if r.Intn(2) == 0 {
+			x, y = x.Neg(x), y.Neg(y)
+		}
+		if x.IsInt() || y.IsInt() || x.Prec() != prec || y.Prec() != prec || x.Cmp(y) == 0 {
+			continue
+		}
+		vx, vy := cty.NumberVal(x), cty.NumberVal(y)
+		eq := vx.Equals(vy).True()
+		ctx.Probe("text-injective-at-one-precision", !eq,
+			fmt.Sprintf("prec %d: %s and %s differ in value but Value.Equals calls them equal", prec, x.Text('p', 0), y.Text('p', 0)))
+		ctx.Add("num.raweq", encBool(eq), numWire(vx), numWire(vy))
+		ctx.Add("num.raweq", encBool(vx.Equals(vx).True()), numWire(vx), numWire(vx))
+		ctx.Tag(fmt.Sprintf("d05b:one-precision:adjacent@%d", prec))
+		done++
+	}
+	*scope = append(*scope, fmt.Sprintf("one precision: %d pairs of non-integers one or two ulps apart at precisions 4..512 (probe: Equals tells them apart)", done))
+}
